@@ -15,7 +15,10 @@ def load_checks():
     import importlib, sys
     sys.path.insert(0, os.path.join(ROOT, "tools"))
     out = {}
+    ready = set(open(os.path.join(ROOT, "tools", "ready.txt")).read().split())
     for pid in ALL:
+        if pid not in ready:
+            continue
         if os.path.exists(os.path.join(ROOT, "tools", "props", pid.lower() + ".py")):
             mod = importlib.import_module("props." + pid.lower())
             if getattr(mod, "MANIFEST", None):
